@@ -197,6 +197,11 @@ def extern_call(an, f, st, t, c, argiv):
     elif name == "tinyvec::arrayvec::ArrayVec::len":
         n = arrayvec_cap_from_callee(c)
         ret = {(): (0, n if n is not None else SLICE_LEN_MAX)}
+    elif name == "tinyvec::arrayvec::ArrayVec::from_array_len":
+        n = arrayvec_cap_from_callee(c)
+        ok = n is not None and a1 is not None and a1[1] <= n
+        goal = (ok, "capacity", "len=%s capacity=%s" % (a1, n))
+        ret = {}
     elif name == "tinyvec::arrayvec::ArrayVec::capacity":
         n = arrayvec_cap_from_callee(c)
         ret = {(): (n, n)} if n is not None else {(): (0, SLICE_LEN_MAX)}
